@@ -133,10 +133,20 @@ CHECKS["C05"] = dict(
           "segments in cartesian and polar form through SetValue, (anti)periodic ties) is compared bit for bit with the "
           "system the real solver hands to PCGSolve (hook dump), and its permeability, circuit-case and prescription "
           "functions are proved equal to the laws above; for the axisymmetric model the absolute 1e-6 cm thresholds that select "
-          "the closed forms of R_hat are stated as theorems (mechanism of the C10 known finding). PARTIAL: the time-harmonic "
-          "assemblies and later Newton passes are not modelled; air-gap elements and incremental materials are outside the model."),
+          "the closed forms of R_hat are stated as theorems (mechanism of the C10 known finding). The WHOLE first pass of Harmonic2D "
+          "(Model/MHarmonic.lean over the complex scalar of Model/Complex.lean: complex circuit integrals and the three circuit "
+          "cases incl. the extra row / column of an unknown voltage gradient, complex effective permeabilities with hysteresis lag "
+          "and the tanh(K)/K lamination factor, proximity-effect permeability taken from the label, eddy mass term, mixed and "
+          "small-skin-depth boundary terms, complex sources, prescribed complex potentials, circuit-row diagonal fix, ties) is "
+          "compared the same way with the system handed to PBCGSolveMod, on the generated harmonic problems and on variants with "
+          "lag angles, laminations, stranded regions and small-skin-depth boundaries (whose solutions the SI oracle, extended with "
+          "the documented complex permeability and skin-depth impedance, also checks); theorems: flat complex density reproduces "
+          "the circuit current, conducting circuits get their own unknown, eddy coefficient -j a w sigma c/12 / zero in laminated "
+          "and wound regions, static limit of the complex permeability, prescribed potential (a/c)(cos phi + j sin phi). PARTIAL: "
+          "the axisymmetric time-harmonic assembly, later Newton / successive-approximation passes, air-gap elements, incremental "
+          "materials and GetFillFactor's curve fits are outside the model."),
     design_ref="DESIGN.md section 3, C05",
-    technique="Lean 4 proof (field identities for lamination and circuit formulas, shared element-level refinement) + element-permeability correspondence + independent weak-form oracle (static and complex harmonic) on solver output",
+    technique="Lean 4 proof (field identities for lamination and circuit formulas, shared element-level refinement, complex field) + whole-assembly correspondence (Static2D, StaticAxisymmetric, Harmonic2D first pass, bit for bit) + independent weak-form oracle (static and complex harmonic) on solver output",
 )
 
 CHECKS["C08"] = dict(
